@@ -308,10 +308,15 @@ def quote(s, mark='"'):
         if isinstance(s, Str)
         else s.id
         if isinstance(s, Name)
-        else s.value
+        else getattr(s, "value", s)
     )
     # ^ Poor man's `get_value`
-    if s is None or len(s) == 0 or s[0] == s[-1] and s[0] in frozenset(("'", '"')):
+    if (
+        not isinstance(s, str)
+        or len(s) == 0
+        or s[0] == s[-1]
+        and s[0] in frozenset(("'", '"'))
+    ):
         return s
     return "{mark}{s}{mark}".format(mark=mark, s=s)
 
